@@ -235,15 +235,10 @@ def _propagate(ctx, spec, t0, t2, x, rel, w, mon, ttype="float", events=None):
     return None if y is None else np.asarray(y, dtype=float)
 
 
-SRP_P = 4.56e-9  # km/s^2 per (m^2/kg): solar radiation pressure at 1 AU, the size of the eclipse kink in the force
-
-
-def _unit(x0, dt, dense=False, spec=None):
+def _unit(x0, dt, dense=False):
     """Error unit (km, km/s), revolutions, eccentricity of state x0 over dt seconds.
 
     dense: the value comes from solve_ivp's interpolant (t_eval / event root), whose error does not shrink with dt.
-    spec with srp: the cannonball SRP model switches on/off across the Earth's shadow (penumbra of a few seconds),
-    which an adaptive step of length h ~ P/20 straddles with an error of about da*h^2 that its estimator cannot see.
     """
     x0 = np.asarray(x0, dtype=float)
     a = K.sma(x0, MU)
@@ -253,19 +248,66 @@ def _unit(x0, dt, dense=False, spec=None):
     nrev = abs(dt) / per
     ur = RTOL * a * ((S0 + nrev) ** 2 + (1.0 if dense else 0.0)) / (1.0 - e)
     uv = ur * math.sqrt(MU / (a * (1.0 - e)) ** 3)
-    if spec is not None and spec.get("srp") and spec.get("ratio", 0.0) > 0.0:
-        da, h = SRP_P * float(spec["ratio"]), per / 20.0
-        ur += da * h * h * (1.0 + nrev)
-        uv += da * h * (1.0 + nrev)
     _LAST[:] = [nrev, e]
     return ur, uv, nrev, e
 
 
-def _ratio(y, ref, ur, uv):
+SRP_P = 4.56e-9  # km/s^2 per (m^2/kg): solar radiation pressure at 1 AU = size of the eclipse switch of the SRP force
+LEAPS_JD = (2457204.5, 2457754.5)  # 2015-07-01 and 2017-01-01 0h UTC: UT1-UTC steps by +1 s, the Earth "jumps" by 7.3e-5 rad
+OMEGA_E, RE_KM, TESS = 7.292115e-5, 6378.1363, 2.5e-6
+J_SRP, J_LEAP = 5.0, 250.0  # calibrated multiples of the one-step bound below (100 x worst observed: 0.05 and 2.2)
+_JCAL = None
+
+
+def _jump(x0, t0, t2, spec):
+    """Absolute extra allowance (km, km/s) for force-model *jumps* inside the span (SpecialPerturbations only).
+
+    A step of length h that straddles a jump da of the acceleration commits an error its estimator cannot see: about
+    da*h in velocity and da*h*h/2 in position, which then drifts along track like 3*dv*dt.  h = P/15 is the DOP853 step
+    at rtol = 1e-10 (RK45 steps are 10x shorter).  Jumps of the repository's documented force model:
+      * cannonball SRP switches off/on across the Earth's shadow (penumbra lasts seconds): da = P_sun * ratio
+      * at a leap second UT1-UTC of the EOP table steps by 1 s while the Julian-date clock does not, so the Earth-fixed
+        frame turns by w*1s at once: da = 2 * w * (tesseral acceleration), only when order >= 1
+    Returns (jr, jv, raw) with raw = the bound for J = 1 (calibration).
+    """
+    if spec is None or spec.get("model") != "sp":
+        return 0.0, 0.0, None
+    x0 = np.asarray(x0, dtype=float)
+    a = K.sma(x0, MU)
+    e = min(float(np.linalg.norm(K.ecc_vector(x0, MU))), 0.95)
+    rp = a * (1.0 - e)
+    per = 2.0 * math.pi * math.sqrt(a ** 3 / MU)
+    h, dt, npg = per / 15.0, abs(t2 - t0), math.sqrt(MU / rp ** 3)
+    shape_r, shape_v = h * (0.5 * h + 3.0 * dt), h * (1.0 + (0.5 * h + 3.0 * dt) * npg)
+    jr = jv = 0.0
+    raw = {}
+    if spec.get("srp") and spec.get("ratio", 0.0) > 0.0:
+        da = SRP_P * float(spec["ratio"])
+        jr += J_SRP * da * shape_r
+        jv += J_SRP * da * shape_v
+        raw["srp"] = da * shape_r
+    if spec.get("ord", 0) >= 1:
+        ja, jb = spec["jd"] + t0 / 86400.0, spec["jd"] + t2 / 86400.0
+        if any(ja - 3.0 / 86400.0 <= L <= jb + 3.0 / 86400.0 for L in LEAPS_JD):
+            da = 2.0 * OMEGA_E * 3.0 * MU / rp ** 2 * (RE_KM / rp) ** 2 * TESS
+            jr += J_LEAP * da * shape_r
+            jv += J_LEAP * da * shape_v
+            raw["leap"] = da * shape_r
+    return jr, jv, raw or None
+
+
+def _ratio(y, ref, ur, uv, name=None, jump=None):
+    """Error in units; with jump = (jr, jv, raw) the test  ratio <= TOL[name]  means |dr| <= TOL*ur + jr (same for v)."""
     y, ref = np.asarray(y, dtype=float), np.asarray(ref, dtype=float)
     if y.shape != ref.shape or not np.all(np.isfinite(y)):
         return math.inf
-    return max(float(np.linalg.norm(y[:3] - ref[:3])) / ur, float(np.linalg.norm(y[3:] - ref[3:])) / uv)
+    dr, dv = float(np.linalg.norm(y[:3] - ref[:3])), float(np.linalg.norm(y[3:] - ref[3:]))
+    if jump is not None and name is not None and jump[2]:
+        if _JCAL is not None:
+            for cls, raw in jump[2].items():
+                _JCAL.append((cls, dr / raw, dr / ur, len(jump[2])))
+        ur, uv = ur + jump[0] / TOL[name], uv + jump[1] / TOL[name]
+    return max(dr / ur, dv / uv)
 
 
 _WORST: dict = {}
@@ -384,8 +426,8 @@ def rel_compose(ctx, spec, x0, t0, t1, t2, how="uniform", ttype="float"):
     y12 = _propagate(ctx, spec, t1, t2, y01, p + "compose", w, mon, ttype)
     if y12 is None:
         return False
-    ur, uv, nrev, e = _unit(x0, t2 - t0, spec=spec)
-    r = _ratio(y12, y02, 2 * ur, 2 * uv)
+    ur, uv, nrev, e = _unit(x0, t2 - t0)
+    r = _ratio(y12, y02, 2 * ur, 2 * uv, "compose", _jump(x0, t0, t2, spec))
     key = p + ("compose-split" if how == "uniform" else "compose-split-at-end")
     _close(ctx, "compose", r, key, f"{spec['method']} Phi(t0->t2) vs Phi(t1->t2)oPhi(t0->t1), split '{how}' at t0+{t1 - t0:.6g} of {t2 - t0:.6g} s: "
            f"|dr| = {np.linalg.norm(y12[:3] - y02[:3]):.3e} km", w, mon)
@@ -421,9 +463,9 @@ def rel_batch(ctx, spec, X, t0, t2, layout="C", ttype="float"):
         yk = _propagate(ctx, spec, t0, t2, X[:, k], p + "batch", w, mon, ttype)
         if yk is None:
             return False
-        ur, uv, nrev, e = _unit(X[:, k], t2 - t0, spec=spec)
+        ur, uv, nrev, e = _unit(X[:, k], t2 - t0)
         f = 2.0 * math.sqrt(K_)  # RMS error norm over 6K components: one column may take sqrt(K) of the budget
-        r = _ratio(Y[:, k], yk, f * ur, f * uv)
+        r = _ratio(Y[:, k], yk, f * ur, f * uv, "batch_vs_single", _jump(X[:, k], t0, t2, spec))
         if not _close(ctx, "batch_vs_single", r, p + "batch-column-differs", f"{spec['method']} column {k} of a K={K_} ({layout}) batch over {t2 - t0:.6g} s "
                       f"differs from its single propagation by {np.linalg.norm(Y[:3, k] - yk[:3]):.3e} km", w, mon):
             break
@@ -457,10 +499,10 @@ def rel_bulk(ctx, spec, X, times, ttype="float", container="list", te=None):
             if yk is None:
                 return False
             got = out[:, i] if X.ndim == 1 else out[:, k, i]
-            ur, uv, nrev, e = _unit(xk, times[i + 1] - times[0], dense=True, spec=spec)
+            ur, uv, nrev, e = _unit(xk, times[i + 1] - times[0], dense=True)
             f = 2.0 * math.sqrt(nk)
-            r = _ratio(got, yk, f * ur, f * uv)
             name = "event_restart" if ev else "bulk_vs_single"
+            r = _ratio(got, yk, f * ur, f * uv, name, _jump(xk, times[0], times[i + 1], spec))
             key = rel + ("-output-differs" if i < n - 1 else "-final-differs")
             if not _close(ctx, name, r, key, f"{spec['method']} propagateBulk output {i + 1}/{n} (t0+{times[i + 1] - times[0]:.6g} s, column {k})"
                           f"{' with a no-op event at t0+%.6g' % (te - times[0]) if ev else ''} differs from propagate by "
@@ -534,8 +576,8 @@ def rel_event(ctx, spec, x0, t0, te, t2, ttype="float", dv=None):
         return False
     if not ctx.check(ye.shape == (6,), p + "event-shape", f"propagate with a terminal event returned shape {ye.shape}", w, mon=mon):
         return True
-    ur, uv, nrev, e = _unit(x0, t2 - t0, dense=True, spec=spec)
-    r = _ratio(ye, y, 2 * ur, 2 * uv)
+    ur, uv, nrev, e = _unit(x0, t2 - t0, dense=True)
+    r = _ratio(ye, y, 2 * ur, 2 * uv, "event_restart", _jump(x0, t0, t2, spec))
     if dv is None:
         _close(ctx, "event_restart", r, p + "event-restart-differs", f"{spec['method']} propagate over {t2 - t0:.6g} s with a no-op terminal event at t0+{te - t0:.6g} s "
                f"differs from the uninterrupted propagation by {np.linalg.norm(ye[:3] - y[:3]):.3e} km", w, mon)
@@ -556,8 +598,8 @@ def rel_epoch(ctx, spec, x0, t0, t2, shift_s):
     yb = _propagate(ctx, spec_b, t0 - shift_s, t2 - shift_s, x0, "epoch", w, mon)
     if ya is None or yb is None:
         return False
-    ur, uv, nrev, e = _unit(x0, t2 - t0, spec=spec)
-    r = _ratio(yb, ya, 2 * ur, 2 * uv)
+    ur, uv, nrev, e = _unit(x0, t2 - t0)
+    r = _ratio(yb, ya, 2 * ur, 2 * uv, "epoch_resplit", _jump(x0, t0, t2, spec))
     _close(ctx, "epoch_resplit", r, "epoch-resplit-differs", f"{spec['method']} SpecialPerturbations({spec['deg']}x{spec['ord']}, third={spec['third']}) over {t2 - t0:.6g} s: "
            f"start JD shifted by {shift_s:+g} s and times by {-shift_s:+g} s changes the result by {np.linalg.norm(yb[:3] - ya[:3]):.3e} km", w, mon)
     return True
